@@ -955,7 +955,7 @@ def case_corner(ctx, item):
 
 # ------------------------------------------------------------------ driver
 def plan(tier):
-    extra = 90000 if tier == "quick" else 1800000
+    extra = 70000 if tier == "quick" else 1400000
     quick = tier == "quick"
     return {"cases": len(SWEEP) + len(CORNER_SWEEP) + extra, "shards": 8 if quick else 14, "min_nontrivial": 150,
             "timeout": 600 if quick else 2400,
